@@ -286,11 +286,23 @@ func c17Run(input string) string {
 			break
 		}
 		m2 = append([][]byte{}, msgs...)
+	case "sweep":
 	default:
 		return "bad-input"
 	}
 	ns := "na"
-	if applied {
+	if neg[0] == "sweep" {
+		// every K-th byte of the proof altered (all eight single-bit masks in turn over the positions): none may verify
+		ns = "fail"
+		for pos := arg % 4; pos < len(proof); pos += 4 {
+			alt := append([]byte{}, proof...)
+			alt[pos] ^= 1 << uint((pos/4)%8)
+			if e := verifyProof(rm, alt, nonce, false); e == nil {
+				ns = fmt.Sprintf("ok@%d", pos)
+				break
+			}
+		}
+	} else if applied {
 		ns = "ok"
 		if e := verifyProof(m2, p2, nc2, other); e != nil {
 			ns = "fail"
@@ -364,6 +376,18 @@ func c17Gen(r *Rng, tier string) []string {
 			}
 			emit(n, rev)
 		}
+	}
+	sweeps := 8
+	if tier == "thorough" {
+		sweeps = 160
+	}
+	for i := 0; i < sweeps; i++ {
+		n := 1 + r.N(6)
+		rev := []int{r.N(n)}
+		if n > 2 {
+			rev = []int{0, n - 1}
+		}
+		out = append(out, fmt.Sprintf("prim|%d|%s|%d%s|s|sweep:%d", n, kinds(n), rev[0], map[bool]string{true: fmt.Sprintf(",%d", n-1), false: ""}[n > 2], i%4))
 	}
 	for len(out) < cases {
 		n := 1 + r.N(32)
